@@ -430,7 +430,7 @@ func (m *machine) store(T types.Type, addr *value, v value) {
 		lhs, ok1 := (*addr).(structure)
 		rhs, ok2 := v.(structure)
 		if !ok1 || !ok2 {
-			m.journal = append(m.journal, undoRec{addr: addr, old: *addr})
+			m.jlog(undoRec{addr: addr, old: *addr})
 			*addr = copyVal(v)
 			return
 		}
@@ -441,7 +441,7 @@ func (m *machine) store(T types.Type, addr *value, v value) {
 		lhs, ok1 := (*addr).(array)
 		rhs, ok2 := v.(array)
 		if !ok1 || !ok2 {
-			m.journal = append(m.journal, undoRec{addr: addr, old: *addr})
+			m.jlog(undoRec{addr: addr, old: *addr})
 			*addr = copyVal(v)
 			return
 		}
@@ -449,7 +449,7 @@ func (m *machine) store(T types.Type, addr *value, v value) {
 			m.store(T.Elem(), &lhs[i], rhs[i])
 		}
 	default:
-		m.journal = append(m.journal, undoRec{addr: addr, old: *addr})
+		m.jlog(undoRec{addr: addr, old: *addr})
 		*addr = v
 	}
 }
@@ -459,8 +459,17 @@ func (m *machine) rawStore(addr *value, v value) {
 	if addr == nil {
 		panic(runtimePanic("invalid memory address or nil pointer dereference"))
 	}
-	m.journal = append(m.journal, undoRec{addr: addr, old: *addr})
+	m.jlog(undoRec{addr: addr, old: *addr})
 	*addr = v
+}
+
+// jlog records undo information unless a package initialiser is running
+// (initialisers build the per-worker template state that paths roll back to).
+func (m *machine) jlog(recs ...undoRec) {
+	if m.initDepth > 0 {
+		return
+	}
+	m.journal = append(m.journal, recs...)
 }
 
 func (m *machine) undoAll() {
